@@ -38,7 +38,11 @@ LIMIT_7Z = 100 * MIB
 MEMBER_LIMIT = 10 * MIB
 HARD_WALL = 900.0               # wall-clock kill of a worker (last resort; the CPU-time limits of the meter come first)
 FIXTURE_DIR = "/repo/sharepoint2text/tests/resources"
-BIG_TOK, OK_TOK = "Bbcdfg", "Bcdfgh"
+
+
+def _toks():
+    from verif.props import c12_templates as T
+    return T.tok("Bbcdfg"), T.tok("Bcdfgh")
 
 _WARM = set()
 
@@ -70,6 +74,44 @@ def _outcome(m):
     return "ok:%s" % ("results" if v and v[0] else "empty")
 
 
+GROWTH_FACTOR = 2.0
+MEMERR_LOWER_BOUND = 1 << 30      # a MemoryError under RLIMIT_AS = 3 GiB means the call wanted at least this much
+
+
+def _superlinear(tid, n, m, v):
+    """A "grow" template's size is proportional to n, so a cost that is merely linear with a large constant can cross the budget
+    without contradicting the property ("a fixed multiple of the input size").  Such a case counts only if the cost PER BYTE has at
+    least doubled against the largest smaller magnitude q of the lattice that stays within budget (fully measured): per-byte cost
+    growing with the size is what "not a fixed multiple" means.  Aborted counters enter with their value at the abort (a lower bound).
+    -> (verdict list or [], text)"""
+    from verif.props import c12_meter as M
+    from verif.props import c12_templates as T
+    for q in sorted((x for x in set(T.magnitudes(tid, "thorough")) if x < n), reverse=True):
+        bq = T.build(tid, q)
+        mq = M.measure(_extract_fn(bq["name"], bq["data"]), bq["size"])
+        if M.verdict(mq):
+            continue
+        sn, sq = max(m["size"], 1), max(mq["size"], 1)
+        facts = []
+        if m["events"] > m["ev_budget"] or m["abort"] == "events":
+            facts.append(("events", (m["events"] / sn) / max(mq["events"] / sq, 1e-9)))
+        pk = m["peak"] if m["peak"] is not None else (MEMERR_LOWER_BOUND if m["memerr"] else None)
+        if m["memerr"] and pk is not None:
+            pk = max(pk, MEMERR_LOWER_BOUND)
+        if pk is not None and (pk > m["mem_budget"] or m["abort"] == "memory" or m["memerr"]) and mq["peak"]:
+            facts.append(("memory", (pk / sn) / max(mq["peak"] / sq, 1e-9)))
+        if m["abort"] in ("cpu", "cpu-traced"):
+            cq = mq["cpu"] if m["abort"] == "cpu" else (mq["cpu2"] or 0.0)
+            lim = M.CPU_LIMIT if m["abort"] == "cpu" else M.CPU_LIMIT_TRACED
+            facts.append(("cpu", (lim / sn) / (max(cq, 0.05) / sq)))
+        good = [(c, g) for c, g in facts if g >= GROWTH_FACTOR]
+        txt = "; per-byte cost against n=%d (%d bytes, within budget): %s" % (q, sq, ", ".join("%s x%.1f" % cg for cg in facts))
+        if good:
+            return v, txt
+        return [], txt
+    return v, "; no smaller magnitude is within budget"
+
+
 def eval_amp(case):
     from verif.props import c12_meter as M
     from verif.props import c12_templates as T
@@ -87,15 +129,21 @@ def eval_amp(case):
     m = M.measure(_extract_fn(b["name"], b["data"]), b["size"])
     v = M.verdict(m)
     fails = []
+    growth = ""
+    if v and T.TEMPLATES[tid]["kind"] == "grow":
+        v, growth = _superlinear(tid, n, m, v)
     if v:
         fails.append(("cost", f"{T.TEMPLATES[tid]['doc']} | n={n}: file of {len(b['data'])} bytes (uncompressed size {b['size']}): " + "; ".join(v) +
-                      f" [events={m['events']} peak={m['peak']} cpu={m['cpu']}s outcome={m['exc'] or m['value']}]"))
+                      growth + f" [events={m['events']} peak={m['peak']} cpu={m['cpu']}s outcome={m['exc'] or m['value']}]"))
     info = {"events": m["events"], "peak": m["peak"], "size": b["size"], "file": len(b["data"]), "cpu": m["cpu"], "exc": m["exc"],
             "value": m["value"]}
     harness = None
     if T.TEMPLATES[tid]["expect"] == "ok" and n == T.magnitudes(tid, "quick")[0] and not v and (m["exc"] or not (m["value"] and m["value"][0])):
         harness = f"template {tid} does not extract at its smallest magnitude: {m['exc']} {m['msg']} {m['value']}"
-    return {"fails": fails, "outcome": _outcome(m), "info": info, "harness": harness}
+    oc = _outcome(m)
+    if oc.startswith("over:") and not fails:
+        oc = "linear-" + oc            # grow template over budget with a per-byte cost that does not grow: not judged
+    return {"fails": fails, "outcome": oc, "info": info, "harness": harness}
 
 
 # ------------------------------------------------------------------------------------------------ limits part
@@ -117,6 +165,7 @@ def _too_large():
 
 def _small_file(ext):
     from verif.props import c12_templates as T
+    BIG_TOK = _toks()[0]
     if ext == "txt":
         return "t.txt", (BIG_TOK + " " + "lorem ipsum " * 8).encode()
     if ext == "docx":
@@ -161,7 +210,7 @@ def sevenz_of_size(total):
     """a valid 7z archive (one member a.txt, copy coder) of exactly `total` bytes: the filler sits between the signature header and
     the pack stream (PackPos = gap), as 7zFormat.txt allows"""
     from verif.gen import sevenz as SZ
-    members = [{"name": "a.txt", "data": (BIG_TOK + " text").encode()}]
+    members = [{"name": "a.txt", "data": (_toks()[0] + " text").encode()}]
     gap = total - len(SZ.sevenz(members, {"pack_gap": 0}))
     for _i in range(6):
         d = SZ.sevenz(members, {"pack_gap": gap})
@@ -203,6 +252,7 @@ def eval_7z_limit(case):
 
 
 def member_bytes(k):
+    BIG_TOK = _toks()[0]
     return (BIG_TOK + " ").encode() + b"a" * (k - len(BIG_TOK) - 1)
 
 
@@ -210,7 +260,7 @@ def member_archive(c, k):
     """archive [big.txt (k bytes), ok.txt]; returns (name, bytes)"""
     from verif.gen import sevenz as SZ, tarforge as TF, zipforge as ZF
     import zipfile
-    big, ok = member_bytes(k), (OK_TOK + " small").encode()
+    big, ok = member_bytes(k), (_toks()[1] + " small").encode()
     members = [{"name": "big.txt", "data": big}, {"name": "ok.txt", "data": ok}]
     if c in ("zip-s", "zip-d"):
         return "t.zip", ZF.zip_honest(members, zipfile.ZIP_STORED if c == "zip-s" else zipfile.ZIP_DEFLATED)
@@ -301,6 +351,7 @@ def eval_member_limit(case):
             texts.append(r.get_full_text() or "")
         except Exception as e:  # noqa
             texts.append(f"<get_full_text raised {type(e).__name__}>")
+    BIG_TOK, OK_TOK = _toks()
     has_big = any(BIG_TOK in t for t in texts)
     has_ok = any(OK_TOK in t for t in texts)
     what = f"{case['c']} archive [big.txt of {k} bytes, ok.txt], per-member limit {L}" + ("" if case["L"] is None else " (configured)")
@@ -349,6 +400,8 @@ def eval_fixture(case):
         return {"fails": [], "outcome": "fixture:unsupported", "info": None}
     with open(path, "rb") as f:
         data = f.read()
+    if not data:
+        return {"fails": [], "outcome": "fixture:empty-file", "info": None}
     size = T.usize(data)
     fn = _extract_fn(name, data)
     if ("fx", os.path.splitext(name)[1]) not in _WARM:
@@ -389,6 +442,15 @@ def _eval_task(arg):
         r = {"fails": [], "outcome": "harness-memory", "harness": f"MemoryError in the harness while building / judging {case}"}
     r["cpu_total"] = round(time.process_time() - t0, 2)
     return r
+
+
+def _eval_batch(arg):
+    """several cases of one template in one worker (one warm-up); a note before every case tells the master which one was running
+    if the worker has to be killed"""
+    out = []
+    for fmt, case in arg:
+        out.append(_eval_task((fmt, case)))
+    return out
 
 
 _POOL = []
@@ -449,7 +511,16 @@ def fmt_of(case):
 
 
 def shrinks(case):
-    """amp: the same template at every smaller magnitude of its (thorough) lattice, smallest first"""
+    """amp: the same template at every smaller magnitude of its (thorough) lattice, smallest first;
+    member_limit: the small configured limit and the copy coder first (cheaper to replay, same boundary)"""
+    if case.get("k") == "member_limit":
+        if case["L"] != 1000:
+            yield dict(case, L=1000)
+        if case["c"] == "7z-lzma2":
+            yield dict(case, c="7z-copy")
+        if case["c"] in ("zip-d", "tar.gz"):
+            yield dict(case, c={"zip-d": "zip-s", "tar.gz": "tar"}[case["c"]])
+        return
     if case.get("k", "amp") != "amp":
         return
     from verif.props import c12_templates as T
@@ -463,13 +534,21 @@ def embeds(small, big):
         return False
     if small.get("k", "amp") == "amp":
         return small["t"] == big["t"] and big["n"] >= small["n"]
+    if small.get("k") == "member_limit":
+        return _family(small["c"]) == _family(big["c"]) and small["d"] == big["d"]
     return small == big
+
+
+def _family(c):
+    return c.split("-")[0].split(".")[0]
 
 
 def fingerprint_view(case):
     """an amplifier finding is identified by its template; the smallest failing magnitude is kept in the replay file only"""
     if case.get("k", "amp") == "amp":
         return {"t": case["t"]}
+    if case.get("k") == "member_limit":
+        return {"k": "member_limit", "container": _family(case["c"]), "d": case["d"]}
     return case
 
 
@@ -504,6 +583,55 @@ def _weight(case):
     return 1000
 
 
+BATCH_MAX_N = 10 ** 5
+
+
+def _sweep(args, ctx):
+    """Executes every (fmt, case) once.  The cheap magnitudes (n <= 10^5) of one template travel together (one warm-up per template
+    instead of one per case); everything else is a task of its own.  If a worker has to be killed, the case named by its last note
+    is the culprit and the rest of its batch is re-submitted."""
+    results = {}
+    pending = list(args)
+    rounds = 0
+    while pending and rounds < 50:
+        rounds += 1
+        batches = {}
+        tasks = []
+        for fmt, case in pending:
+            if case.get("k", "amp") == "amp" and case["n"] <= BATCH_MAX_N:
+                batches.setdefault(case["t"], []).append((fmt, case))
+            else:
+                tasks.append([(fmt, case)])
+        for tid in batches:
+            tasks.append(sorted(batches[tid], key=lambda fc: fc[1]["n"]))
+        tasks.sort(key=lambda t: -max(_weight(fc[1]) for fc in t))
+        res = P.run_all(MOD, "_eval_batch", tasks, n=ctx.ncpu, hard_timeout=HARD_WALL, env={"VERIF_SEED": str(ctx.seed)})
+        pending = []
+        for task, (st, r, note) in zip(tasks, res):
+            if st == "done":
+                for (fmt, case), rr in zip(task, r):
+                    results[_key(fmt, case)] = ("done", rr, None)
+                continue
+            culprit = None
+            if st == "killed" and note is not None:
+                try:
+                    culprit = json.loads(note)
+                except Exception:
+                    culprit = None
+            hit = False
+            for fmt, case in task:
+                if culprit is not None and case == culprit and not hit:
+                    results[_key(fmt, case)] = (st, r, note)
+                    hit = True
+                elif hit:
+                    pending.append((fmt, case))
+                elif culprit is None or len(task) == 1:
+                    results[_key(fmt, case)] = (st, r, note)
+                else:
+                    pending.append((fmt, case))      # finished before the kill, result lost with the worker: run again
+    return [results.get(_key(fmt, case), ("error", "not executed", None)) for fmt, case in args]
+
+
 def run(ctx):
     from verif.props import c12_meter as M
     from verif.props import c12_templates as T
@@ -513,7 +641,7 @@ def run(ctx):
     rnd.shuffle(cs)
     cs.sort(key=lambda c: -_weight(c))              # heavy cases first (work order only)
     args = [(fmt_of(c), c) for c in cs]
-    res = P.run_all(MOD, "_eval_task", args, n=ctx.ncpu, hard_timeout=HARD_WALL, env={"VERIF_SEED": str(ctx.seed)})
+    res = _sweep(args, ctx)
     fails, outcomes, per_part = [], {}, {}
     fx = []
     amp_over = {}
@@ -549,11 +677,13 @@ def run(ctx):
     failing = sorted({_key(f[1], f[2]) for f in fails})
     rargs = [tuple(json.loads(k)) for k in failing for _i in (0, 1)]
     rres = P.run_all(MOD, "_eval_task", rargs, n=ctx.ncpu, hard_timeout=HARD_WALL, env={"VERIF_SEED": str(ctx.seed)}) if rargs else []
+    rres = [(st, r, note) for st, r, note in rres]
     for (fmt, case), (st, r, _note) in zip(rargs, rres):
         _FRESH.setdefault(_key(fmt, case), []).append(_as_fails(case, st, r))
     slow.sort(reverse=True)
-    fx_ev = max(fx, key=lambda i: i["ev_per_byte"]) if fx else None
-    fx_pk = max((i for i in fx if i["peak_per_byte"] is not None), key=lambda i: i["peak_per_byte"], default=None)
+    fxb = [i for i in fx if i["size"] >= 4096]          # per-byte ratios of tiny files only show the fixed base cost
+    fx_ev = max(fxb, key=lambda i: i["ev_per_byte"]) if fxb else None
+    fx_pk = max((i for i in fxb if i["peak_per_byte"] is not None), key=lambda i: i["peak_per_byte"], default=None)
     fx_abs_ev = max(fx, key=lambda i: i["events"]) if fx else None
     fx_abs_pk = max((i for i in fx if i["peak"] is not None), key=lambda i: i["peak"], default=None)
     samples = []
@@ -572,7 +702,7 @@ def run(ctx):
            "templates": len(T.TEMPLATES), "per_part": per_part, "outcomes": dict(sorted(outcomes.items())),
            "budget": {"events": "2e6 + 2000 * size", "memory_bytes": "32 MiB + 64 * size", "cpu_backstop_s": M.CPU_LIMIT,
                       "rlimit_as": "3 GiB", "counted_packages": M.PACKAGES},
-           "fixture_maxima": {"files_measured": len(fx),
+           "fixture_maxima": {"files_measured": len(fx), "note": "per-byte maxima over fixtures of at least 4 KiB; budget constants: 2000 events / byte, 64 bytes / byte",
                               "max_events_per_byte": fx_ev and {"p": fx_ev["p"], "value": fx_ev["ev_per_byte"], "size": fx_ev["size"]},
                               "max_peak_per_byte": fx_pk and {"p": fx_pk["p"], "value": fx_pk["peak_per_byte"], "size": fx_pk["size"]},
                               "max_events": fx_abs_ev and {"p": fx_abs_ev["p"], "value": fx_abs_ev["events"], "size": fx_abs_ev["size"]},
